@@ -122,6 +122,10 @@ def _prim(x):
     return x is None or (isinstance(x, (int, str, bool, float)) or type(x).__module__ == "uuid")
 
 
+class FakeModule:
+    """a checker-provided stand-in for a stdlib module whose state matters (e.g. random)"""
+
+
 class DDict(dict):
     """collections.defaultdict as modelled by the interpreter (factory is an interpreter callable)"""
     factory = None
@@ -328,6 +332,8 @@ class Interp:
             return ("setfn", name)
         if isinstance(obj, tuple) and len(obj) == 2 and obj[0] == "builtin" and obj[1] in ("str", "dict", "list"):
             return ("native", getattr({"str": str, "dict": dict, "list": list}[obj[1]], name))
+        if isinstance(obj, FakeModule):
+            return ("native", getattr(obj, name))
         if isinstance(obj, tuple) and len(obj) == 2 and obj[0] == "pymodule":
             if obj[1] == "warnings":
                 return ("native", lambda *a, **k: None)
@@ -742,6 +748,13 @@ class Interp:
                 return ("native", uuid.UUID)
             if mod is not None and n.id in mod.imports and mod.imports[n.id][0] == "warnings":
                 return ("native", lambda *a, **k: None) if mod.imports[n.id][1] else ("pymodule", "warnings")
+            if mod is not None and n.id in mod.imports and mod.imports[n.id][0] == "string" and mod.imports[n.id][1]:
+                import string as _string
+                return getattr(_string, mod.imports[n.id][1])
+            if mod is not None and n.id in mod.imports and mod.imports[n.id] == ("random", None):
+                return self.overrides.get("random", ("pymodule", "random"))
+            if mod is not None and n.id in mod.imports and mod.imports[n.id] == ("abc", "ABC"):
+                return ClassTok("ABC")
             if mod is not None and n.id in mod.imports and mod.imports[n.id] == ("collections", "defaultdict"):
                 return ("builtin", "defaultdict")
             if mod is not None and n.id in mod.imports and mod.imports[n.id] == ("dataclasses", "astuple"):
@@ -1259,11 +1272,28 @@ class Interp:
                 raise Uninterpretable(f"len of {v}")
             return len(v)
         if name in ("min", "max"):
-            vals = list(args[0]) if len(args) == 1 and not kwargs else list(args)
+            vals = list(self.iterate(args[0])) if len(args) == 1 else list(args)
             if isinstance(args[0], _Gen):
                 vals = args[0].items
             if not vals:
+                if "default" in kwargs:
+                    return kwargs["default"]
                 raise Raised("ValueError", "empty sequence")
+            key = kwargs.get("key")
+            if key is not None:
+                keyed = [(self.apply(key, [x], {}, func, depth), x) for x in vals]
+                best = keyed[0]
+                for kx in keyed[1:]:
+                    if (name == "min" and self.compare(ast.Lt(), kx[0], best[0], func, depth)) or \
+                            (name == "max" and self.compare(ast.Gt(), kx[0], best[0], func, depth)):
+                        best = kx
+                return best[1]
+            if any(isinstance(x, (Obj, EnumVal)) for x in vals):
+                best = vals[0]
+                for x in vals[1:]:
+                    if self.compare(ast.Lt() if name == "min" else ast.Gt(), x, best, func, depth):
+                        best = x
+                return best
             return min(vals) if name == "min" else max(vals)
         if name == "abs":
             return abs(args[0])
